@@ -44,7 +44,10 @@ class Ctx:
         self.pid, self.tier, self.seed = pid, tier, int(seed)
         self.rng = random.Random("%s-%d" % (pid, self.seed))
         self.t0 = time.time()
-        self.build = os.path.join(VERIF, "build", pid)
+        # VERIF_SCRATCH=<tag>: separate build dir, evidence and replays are written there, so a
+        # run against a scratch copy (QIB_REPO=...) never disturbs the registered outputs
+        self.scratch = os.environ.get("VERIF_SCRATCH")
+        self.build = os.path.join(VERIF, "build", pid + ("@" + self.scratch if self.scratch else ""))
         shutil.rmtree(self.build, ignore_errors=True)
         os.makedirs(self.build, exist_ok=True)
         self.obligations = []      # {name, kind, ok, detail}
@@ -286,7 +289,7 @@ class Ctx:
 
     def finish(self):
         known = self.known_sigs()
-        rdir = os.path.join(VERIF, "replays", self.pid)
+        rdir = os.path.join(self.build, "replays") if self.scratch else os.path.join(VERIF, "replays", self.pid)
         os.makedirs(rdir, exist_ok=True)
         lines, nviol = [], 0
         matched = []
@@ -354,5 +357,8 @@ class Ctx:
         }
         if self.exhaustive is not None:
             ev["coverage"]["exhaustive"] = self.exhaustive
+        if self.scratch:
+            json.dump(ev, open(os.path.join(self.build, "evidence.json"), "w"), indent=1, default=str)
+            return
         os.makedirs(os.path.join(VERIF, "evidence"), exist_ok=True)
         json.dump(ev, open(os.path.join(VERIF, "evidence", self.pid + ".json"), "w"), indent=1, default=str)
